@@ -2121,7 +2121,10 @@ def _put_slice_ClassDef_bases(
     _validate_put_seq(self, fst_, 'ClassDef.bases')
 
     if keywords := ast.keywords:
-        if body and keywords[0].f.loc[:2] < body[stop - 1].f.loc[2:] and stop:
+        if body and (
+            (stop and keywords[0].f.loc[:2] < body[stop - 1].f.loc[2:])
+            or (fst_ and start == stop < len_body and keywords[0].f.loc[:2] < body[stop].f.loc[:2])  # pure insertion lands in front of an element which itself follows keywords
+        ):
             raise NodeError("cannot put to ClassDef.bases slice because it follows keywords, try the '_bases' field")
 
     bound_ln, bound_col, bound_end_ln, bound_end_col = bases_pars = self._loc_ClassDef_bases_pars()
@@ -2827,7 +2830,10 @@ def _put_slice_Call_args(
     _validate_put_seq(self, fst_, 'Call.args')
 
     if keywords := ast.keywords:
-        if body and keywords[0].f.loc[:2] < body[stop - 1].f.loc[2:] and stop:
+        if body and (
+            (stop and keywords[0].f.loc[:2] < body[stop - 1].f.loc[2:])
+            or (fst_ and start == stop < len_body and keywords[0].f.loc[:2] < body[stop].f.loc[:2])  # pure insertion lands in front of an element which itself follows keywords
+        ):
             raise NodeError("cannot put to Call.args slice because it follows keywords, try the '_args' field")
 
     else:
